@@ -21,7 +21,7 @@ func XMultiSameMethod() *spec.Spec {
 
 // Extended returns the extended families (everything beyond the documented core combinations).
 func Extended(thorough bool) []*spec.Spec {
-	out := []*spec.Spec{XMultiSameMethod(), XCrossFile(), XTwoServiceFiles(), XTimestampCards(), XTimestampCardsFmt(), XEmptyOrders(), XOneofSiblings(), XSharedMethodHeader(), XQuotedHeaderTexts(), XQuotedAnnotationValues(), XForeignResponse(), XSameNamedNestedEnums(), XOneofVariantShapes(), XInt64Cards()}
+	out := []*spec.Spec{XMultiSameMethod(), XCrossFile(), XTwoServiceFiles(), XTimestampCards(), XTimestampCardsFmt(), XEmptyOrders(), XOneofSiblings(), XSharedMethodHeader(), XQuotedHeaderTexts(), XQuotedAnnotationValues(), XForeignResponse(), XSameNamedNestedEnums(), XOneofVariantShapes(), XInt64Cards(), XHeaderNameShapes()}
 	out = append(out, CtxSpecs()...)
 	out = append(out, RouteSpecs(thorough)...)
 	out = append(out, BindSpecs(thorough)...)
@@ -307,4 +307,25 @@ func XInt64Cards() *spec.Spec {
 	f := &spec.File{Messages: []*spec.Message{spec.M("Int64Cards", fs...).WithOneof(&spec.Oneof{Name: "choice"})},
 		Services: []*spec.Service{EchoService("Int64CardService", "Int64Cards")}}
 	return withCell(spec.One("x_int64_cards", f), "ext/unit=int64_cards", "extended", "valid", "codec")
+}
+
+// XHeaderNameShapes: the header-name family - distinct header names that come close to each other once they are turned into
+// identifiers or compared case-insensitively (with / without the X- prefix, hyphen placement, letter case, digits, a name that
+// is a Go keyword once stripped), at every pair of levels: two service headers, service + method, two method headers of one
+// RPC, the same pair on two RPCs.
+func XHeaderNameShapes() *spec.Spec {
+	h := func(n string) *spec.Header { return &spec.Header{Name: n, Type: "string", Required: false} }
+	msgs := []*spec.Message{spec.M("Req", spec.F("name", "string")), spec.M("Out", spec.F("ok", "bool"))}
+	f := &spec.File{Messages: msgs, Services: []*spec.Service{
+		spec.Svc("PrefixService", "/hp",
+			spec.RPC("ImportSpan", "Req", "Out", "POST", "/import").H(h("Trace-ID"), h("X-Idempotency-Key")),
+			spec.RPC("ExportSpan", "Req", "Out", "POST", "/export").H(h("X-Idempotency-Key"), h("Idempotency-Key")),
+			spec.RPC("PlainSpan", "Req", "Out", "POST", "/plain"),
+		).H(h("X-Trace-ID"), h("X-Span-ID"), h("Span-ID")),
+		spec.Svc("HyphenService", "/hh",
+			spec.RPC("One", "Req", "Out", "POST", "/one").H(h("X-RequestID"), h("X-Rate-Limit-1")),
+			spec.RPC("Two", "Req", "Out", "POST", "/two").H(h("X-Request-ID"), h("X-Rate-Limit1")),
+		).H(h("X-Request-ID"), h("X-Type"), h("X-Func"), h("X-2FA-Code")),
+	}}
+	return withCell(spec.One("x_header_name_shapes", f), "ext/unit=header_name_shapes", "extended", "valid")
 }
